@@ -10,7 +10,7 @@ pub fn actor_main(id: &str) -> i32 {
         Ok(s) => std::path::PathBuf::from(s),
         Err(_) => return 97,
     };
-    let script: ActorScript = match std::fs::read(side.join("actors").join(format!("{id}.json")))
+    let script: ActorScript = match std::fs::read(side.join("actors").join(format!("{}.json", id.replace('/', "_"))))
         .ok()
         .and_then(|b| serde_json::from_slice(&b).ok())
     {
